@@ -28,5 +28,5 @@ def run(ctx):
         "path.Dir modelled (Clean + Split) and validated by the differential run",
         "a hang of the real code is detected by time-outs (3-10 s) in child processes",
     ]
-    common.standard(ctx, "GopModel.Props.C40", "c40", 1200, 12000, RULE,
+    common.standard(ctx, "GopModel.Props.C40", "c40", 1200, 60000, RULE,
                     extract=("sync_watcher",), driver="drv_conc")
